@@ -241,14 +241,30 @@ fn draw_and_compare(font: &MonoFont, s: &str, text: bool, bg: bool, ul: u8, st: 
             Rectangle::new(p0 - Point::new(1, 2), Size::new(cw as u32 + 2, 3)),
             Rectangle::new(p0 + Point::new(cw / 2, chh / 2), Size::new(cw as u32 + 1, chh as u32 + 1)),
         ];
-        for win in wins {
+        // the same text positioned by its bottom row (Baseline::Bottom at y + height - 1 paints the same cells)
+        let tb = Text::with_baseline(s, Point::new(pos.0, pos.1 + chh - 1), other, Baseline::Bottom);
+        let more = [
+            // the window ends one row above the text's bottom row / one column before the first cell's last column
+            Rectangle::new(p0 - Point::new(1, 1), Size::new(cw as u32 + 3, chh as u32)),
+            Rectangle::new(p0 - Point::new(1, 1), Size::new(cw as u32, chh as u32 + 3)),
+        ];
+        for win in wins.into_iter().chain(more) {
+            let inside = |m: &Map<C>| -> Map<C> { m.iter().filter(|(k, _)| win.contains(Point::new(k.0, k.1))).map(|(k, v)| (*k, *v)).collect() };
             let mut wd = RecD::<C>::with_box(win);
             t.draw(&mut wd).unwrap();
-            let inside = |m: &Map<C>| -> Map<C> { m.iter().filter(|(k, _)| win.contains(Point::new(k.0, k.1))).map(|(k, v)| (*k, *v)).collect() };
-            let got = inside(&wd.map);
-            obs.class_if(!got.is_empty(), "glyphs-through-a-target-window");
-            if got != inside(&exp_tw) && got != inside(&exp_adv) {
-                obs.fail("glyph-cells-inside-a-target-window", format!("window {:?}: {}", rt(&win), map_diff(&got, &inside(&exp_tw))));
+            let mut wb = RecD::<C>::with_box(win);
+            tb.draw(&mut wb).unwrap();
+            // behind the library's clipped() adapter on an unbounded native parent
+            let mut pc = RecN::<C>::new();
+            {
+                use embedded_graphics::draw_target::DrawTargetExt;
+                t.draw(&mut pc.clipped(&win)).unwrap();
+            }
+            obs.class_if(!inside(&wd.map).is_empty(), "glyphs-through-a-target-window");
+            for (name, got) in [("window", inside(&wd.map)), ("window, Baseline::Bottom", inside(&wb.map)), ("clipped()", pc.map.clone())] {
+                if got != inside(&exp_tw) && got != inside(&exp_adv) {
+                    obs.fail("glyph-cells-inside-a-target-window", format!("{name} {:?}: {}", rt(&win), map_diff(&got, &inside(&exp_tw))));
+                }
             }
         }
     }
@@ -462,7 +478,7 @@ fn check_strmap(c: &StrMapCase, obs: &mut Obs) {
 
 fn strmap_cases() -> Vec<StrMapCase> {
     let mut v = vec![];
-    for data in ["\0 Z\0az", "\0adx\0yz", " ", "abc", "\0 ~", "\0\u{20}\u{7f}", "\0 /x", "z\0 9", "\0!~", "", "\0 \u{20}", "\0 Z", "\0 ~\0\u{a0}\u{ff}", "0123456789", "\0AZ\0 @", "?\0 >"] {
+    for data in ["\0 Z\0az", "\0adx\0yz", " ", "abc", "\0 ~", "\0\u{20}\u{7f}", "\0 /x", "z\0 9", "\0!~", "", "\0 \u{20}", "\0 Z", "\0 ~\0\u{a0}\u{ff}", "0123456789", "\0AZ\0 @", "?\0 >", "x\0bay", "\0zab"] {
         for replacement in [0usize, 1, 40] {
             v.push(StrMapCase { data: data.to_string(), replacement });
         }
@@ -492,7 +508,7 @@ fn run_part(run: &mut Run) {
                 }
                 v
             }, check_mapping);
-            run.sweep_vec("custom-mapping-strings", "16 StrGlyphMapping strings (single characters, ranges starting at or after the space, ranges ending before or after the tilde, several ranges, empty) x 3 replacement indices: index() of every scalar value below U+0180 and of every mapped character against the expanded string", strmap_cases, check_strmap);
+            run.sweep_vec("custom-mapping-strings", "18 StrGlyphMapping strings (single characters, ranges starting at or after the space, ranges ending before or after the tilde, several ranges, reversed (empty) ranges, empty) x 3 replacement indices: index() of every scalar value below U+0180 and of every mapped character against the expanded string", strmap_cases, check_strmap);
             run.sweep_vec("custom-fonts", "synthetic atlases: character sizes {3x4,5x2,8x8,1x1} x glyphs per row {1,4,16} x spacing {0,1,3} x extra atlas columns {0,w-1} x StrGlyphMapping with ranges/closure mapping with replacement index x 16 colour/decoration sets x 6 strings (one with three lines, CR LF and lines starting with a carriage return), plus a 300-character line for a subset", custom_cases, check_custom);
         }
         "draw-a" => run.sweep_vec("glyphs", "every (built-in font, mapped character) plus 9 unmapped characters, single character and 3-character strings, colour/decoration sets (all 16 in thorough, all for unmapped and a rotating subset for mapped in quick)", || draw_cases(tier, &SUBSETS[..7]), check_draw),
